@@ -8,6 +8,7 @@ import Compress.Proofs.BitIO
 import Compress.Proofs.XFlateReader
 import Compress.XFlate.ReaderSpec
 import Compress.Proofs.BzImplCut
+import Compress.Proofs.WrapInit
 
 namespace Compress.Props.C10
 open Compress Compress.Flate Compress.Prefix Compress.Bzip2 Compress.Proofs.Bzip2Stages Compress.Proofs.FlateRefine
@@ -56,5 +57,55 @@ theorem C10_bzip2_reader_read_sizes (bytes : List UInt8) (s1 s2 : List Nat) :
     (∀ e1 e2, (Bzip2.Impl.run bytes s1).err = some e1 → (Bzip2.Impl.run bytes s2).err = some e2 →
       (Bzip2.Impl.run bytes s1).delivered = (Bzip2.Impl.run bytes s2).delivered ∧ e1 = e2) :=
   schedule_independent tables_agree bytes s1 s2
+open Compress.Proofs.Wrap Compress.Prefix.Wrap in
+/-- **wrap.go: the look-ahead cache honours the BufferedReader contract, for every interleaving.**
+    A `bytesReader`/`stringReader` (concrete model: `pos`, the cache as a window of `arr [512]byte`,
+    `update`) started on a *bytes.Reader / *strings.Reader at any position, under ANY sequence of
+    `Buffered`, `Peek n`, `Discard n`, direct `Read`/`ReadByte` on the embedded reader and `Seek`s
+    (any offset and whence, failing ones included) by its owner: every `Peek n` with n ≤ 512 returns
+    exactly the next min(n, remaining) bytes at the embedded reader's CURRENT position, with io.EOF
+    iff fewer than n remain (io.ErrShortBuffer for n > 512); `Discard n` skips min(n, remaining);
+    `Buffered()` ≤ remaining; reads and Seeks act on the position the wrapper left. -/
+theorem C10_wrapper_contract (rd : Rd) (ops : List Op) : ContractOK rd (trace (CRd.fresh rd) ops) :=
+  wrapper_contract rd ops
+
+open Compress.Proofs.Wrap Compress.Prefix.Wrap in
+/-- the invariant behind it: after any such history the cache, once `update` has re-synchronised
+    it, equals `data[pos, pos+len)` with `pos` the embedded reader's current position. -/
+theorem C10_wrapper_cache_invariant (rd : Rd) (ops : List Op) :
+    let w := (runOps (CRd.fresh rd) ops).update
+    w.buf = w.rd.rest.take w.bLen ∧ w.bLen ≤ w.rd.len ∧ w.pos = (w.rd.i : Int) :=
+  cache_after_history rd ops
+
+open Compress.Proofs.Wrap Compress.Prefix.Wrap Compress.Prefix in
+/-- **The wrappers simulate the abstract `Source`** the bit reader theorems are stated over.
+    `WSim w s`: `s` holds exactly the unread bytes at the wrapped object's current position, never
+    fails, and its ghost `peeked` is covered by the usable cache.  A fresh wrapper is related to the
+    source over the unread bytes (any adversary list); `Peek` (within reach), `Discard` and the direct
+    `Read` return the same bytes, counts and errors on both sides and keep the relation;
+    `Buffered()` keeps it and answers a value the abstract adversary may answer in that state. -/
+theorem C10_wrapper_simulates_source (w : Wrapper) (s : Source) (h : WSim w s) (n : Nat) :
+    (peekOK w n → (w.peek n).2.1 = (s.peek n).2.1 ∧ (w.peek n).2.2 = (s.peek n).2.2 ∧ WSim (w.peek n).1 (s.peek n).1) ∧
+    ((w.discard n).2.1 = (s.discard n).2.1 ∧ (w.discard n).2.2 = (s.discard n).2.2 ∧
+      WSim (w.discard n).1 (s.discard n).1) ∧
+    (0 < n → (w.read n).2.1 = (s.read n).2.1 ∧ (w.read n).2.2 = (s.read n).2.2 ∧ WSim (w.read n).1 (s.read n).1) ∧
+    (WSim w.buffered.1 s ∧ w.buffered.2 ≤ s.avail ∧
+      (∀ rest, ({ s with bufAdv := w.buffered.2 :: rest } : Source).bufferedAns.2 = w.buffered.2) ∧
+      (∀ c, c ≤ arrLen → peekOK w.buffered.1 (max c w.buffered.2))) :=
+  ⟨wsim_peek h n, wsim_discard h n, wsim_read h n, wsim_buffered h⟩
+
+open Compress.Proofs.Wrap Compress.Prefix.Wrap Compress.Prefix in
+/-- the relation holds initially, for every source object `Init` wraps and every adversary list,
+    and again after any `Seek` by the owner (with the source re-targeted at the new position). -/
+theorem C10_wrapper_simulation_starts (src : Src) (adv : List Nat) :
+    WSim (Wrapper.fresh src) { data := Src.rest src, bufAdv := adv } :=
+  wsim_fresh src adv
+
+-- non-vacuity: a wrapper whose cache holds the whole source, then a Seek backwards by the owner,
+-- a direct Read past the cached window and a Peek: a legal instance of the quantified sequence
+example : (Compress.Proofs.Wrap.trace (Compress.Prefix.Wrap.CRd.fresh { s := [1, 2, 3, 4, 5], i := 2 })
+    [.peek 2, .seek (-2) 1, .read 1, .peek 9, .discard 9, .buffered]).map (·.2) =
+    [.bytes [3, 4] none, .at 0 none, .bytes [1] none, .bytes [2, 3, 4, 5] (some .eof), .count 4 (some .eof), .num 0] := by
+  decide
 
 end Compress.Props.C10
